@@ -35,6 +35,23 @@ func universe(tier string) []*ukit.Spec {
 		}
 		out = append(out, s)
 	}
+	// a struct-mapped root whose absent map-typed field is filled from the defaults of the map-based objects below it,
+	// where one object type is used by two sibling properties (and by two cousins): which of them gets its defaults
+	// must not depend on the order the property maps are walked in
+	ref := func(id string) *ukit.Spec { return &ukit.Spec{Kind: ukit.KRef, RefID: id} }
+	ep := func() *ukit.Spec {
+		return &ukit.Spec{Kind: ukit.KObject, ID: "Ep", Props: []ukit.Prop{{Name: "port", Type: &ukit.Spec{Kind: ukit.KInt}, Default: ukit.Str("5")}, {Name: "host", Type: &ukit.Spec{Kind: ukit.KString}}}}
+	}
+	root := func() *ukit.Spec {
+		return &ukit.Spec{Kind: ukit.KObject, ID: "Root", Struct: "SLink", Props: []ukit.Prop{{Name: "name", Type: &ukit.Spec{Kind: ukit.KString}, Required: true}, {Name: "link", Type: ref("Link")}}}
+	}
+	out = append(out,
+		&ukit.Spec{Kind: ukit.KScope, Root: "Root", Objects: []*ukit.Spec{root(),
+			{Kind: ukit.KObject, ID: "Link", Props: []ukit.Prop{{Name: "src", Type: ref("Ep")}, {Name: "dst", Type: ref("Ep")}}}, ep()}},
+		&ukit.Spec{Kind: ukit.KScope, Root: "Root", Objects: []*ukit.Spec{root(),
+			{Kind: ukit.KObject, ID: "Link", Props: []ukit.Prop{{Name: "a", Type: ref("MidA")}, {Name: "b", Type: ref("MidB")}}},
+			{Kind: ukit.KObject, ID: "MidA", Props: []ukit.Prop{{Name: "e", Type: ref("Ep")}}},
+			{Kind: ukit.KObject, ID: "MidB", Props: []ukit.Prop{{Name: "e", Type: ref("Ep")}}}, ep()}})
 	return out
 }
 
